@@ -13,7 +13,7 @@ Open Scope N_scope.
 Inductive cmd : Type :=
 | CInit
 | CNew (nm : str) (meta : N) (msg : str)                      (* stg new -m <msg> <name> *)
-| CRefresh                                                    (* stg refresh (top patch, whole work tree) *)
+| CRefresh (patch : option str)                               (* stg refresh [-p <patch>] (whole work tree) *)
 | CPush (ranges : option (list str)) (number : option Z)
         (all reverse noapply settree merged keep : bool) (conflicts : option bool)
 | CPop (ranges : option (list str)) (number : option Z) (all keep spill : bool)
@@ -693,9 +693,88 @@ Definition run_new (w : world) (nm : str) (meta : N) (msg : str) : world * exitc
 Definition s_refresh_temp : str := [114;101;102;114;101;115;104;45;116;101;109;112].
 Definition s_refresh_of : str := [82;101;102;114;101;115;104;32;111;102;32].      (* "Refresh of " *)
 
-(* stg refresh, default form: absorb the whole work tree into the top patch.  Two
-   transactions, hence two log entries. *)
-Definition run_refresh (w : world) : world * exitc :=
+(* the applied patches above n (empty when n is not applied) *)
+Fixpoint after_name (n : name) (l : list name) : list name :=
+  match l with
+  | [] => []
+  | x :: r => if name_eqb x n then r else after_name n r
+  end.
+
+(* EditBuilder with an overriding tree: a new commit for the patch unless nothing changes *)
+Definition refresh_commit (t : txn) (pc : oid) (new_tree : tree) : txn * option oid :=
+  if tree_eqb new_tree (tree_of (t_objs t) pc) then (t, None)
+  else
+    let '(objs', o) :=
+      put (t_objs t)
+          (plain (parents_of (t_objs t) pc) new_tree
+                 (match get (t_objs t) pc with Some c => c_meta c | None => 0 end)
+                 (subj_of (t_objs t) pc)) in
+    (set_objs t objs', Some o).
+
+(* the second transaction of stg refresh: absorb the temporary patch into pn *)
+Definition refresh_absorb (pn tmpname : name) (t : txn) : tres :=
+  if mem pn (t_applied t) then
+    (* an applied patch: everything above it (the temporary patch included) is popped, the
+       temporary patch alone is pushed onto it, its tree becomes the patch's, and the rest is
+       pushed back *)
+    let to_pop := after_name pn (t_applied t) in
+    let step1 : tres :=
+      if Nat.ltb 1 (length to_pop) then
+        let '(t1, extra) := pop_patches (fun n => mem n to_pop) t in
+        match extra with
+        | _ :: _ => TPanic
+        | [] => push_patches [tmpname] false t1
+        end
+      else TOk t in
+    tbind step1 (fun t1 =>
+      match t_patch t1 pn, t_patch t1 tmpname with
+      | Some pc, Some tc =>
+          match last_error to_pop with
+          | Some top =>
+              if negb (name_eqb top tmpname) then TPanic      (* assert_eq!(top_name, Some(temp)) *)
+              else
+                let '(t2, newc) := refresh_commit t1 pc (tree_of (t_objs t1) tc) in
+                let '(t3, _) := delete_patches (fun n => name_eqb n tmpname) t2 in
+                tbind (match newc with Some o => update_patch pn o t3 | None => TOk t3 end)
+                      (push_patches (removelast to_pop) false)
+          | None => TPanic
+          end
+      | _, _ => TPanic
+      end)
+  else
+    (* an unapplied patch: the temporary patch is popped and its change applied to the patch's
+       tree in a temporary index; when that fails the changes stay in the temporary patch *)
+    let '(t1, extra) := pop_patches (fun n => name_eqb n tmpname) t in
+    match extra with
+    | _ :: _ => TPanic
+    | [] =>
+        match t_patch t1 pn, t_patch t1 tmpname with
+        | Some pc, Some tc =>
+            match first_parent (t_objs t1) tc with
+            | None => TErr t1
+            | Some tpar =>
+                match apply3way (t_wt t1) (tree_of (t_objs t1) tpar) (tree_of (t_objs t1) pc)
+                                (tree_of (t_objs t1) tc) with
+                | Some tree' =>
+                    let '(t2, newc) := refresh_commit t1 pc tree' in
+                    tbind (match newc with Some o => update_patch pn o t2 | None => TOk t2 end)
+                          (fun t3 => TOk (fst (delete_patches (fun n => name_eqb n tmpname) t3)))
+                | None => TOk t1
+                end
+            end
+        | _, _ => TPanic
+        end
+    end.
+
+(* stg refresh [-p <patch>]: absorb the whole work tree into the top patch or into the named
+   visible patch.  Two transactions, hence two log entries. *)
+Definition run_refresh (w : world) (patch : option str) : world * exitc :=
+  let loc_l := match patch with
+               | Some o => match parse_locator o with Some l => Some (Some l) | None => None end
+               | None => Some None end in
+  match loc_l with
+  | None => (w, X1)
+  | Some loc_l =>
   match open_stack PAllow w with
   | None => err2 w
   | Some op =>
@@ -703,9 +782,13 @@ Definition run_refresh (w : world) : world * exitc :=
       let s := op_state op in
       if negb (head_top_ok op) then err2 w1
       else
-        match last_error (s_applied s) with
-        | None => err2 w1
-        | Some pn =>
+        let pn_r : rres name :=
+          match loc_l with
+          | Some l => resolve_constrained (view_of s) LCVisible l
+          | None => match last_error (s_applied s) with
+                    | Some n => ROk n | None => RErr ENoLastPatch end
+          end in
+        rres_bind w1 pn_r (fun pn =>
             if w_unmerged w1 then err2 w1            (* write-tree of an unmerged index fails *)
             else
               let '(objs1, tmpc) := put (w_objs w1) (plain [w_branch w1] (w_wt w1) 0 (s_refresh_of ++ pn)) in
@@ -719,33 +802,11 @@ Definition run_refresh (w : world) : world * exitc :=
                   | Some op2 =>
                       (* re-opened stack as returned by execute *)
                       transact op2 (opts CDisallow (w_apc (op_world op2)) false true true false)
-                        (fun t =>
-                           match t_patch t pn, t_patch t tmpname with
-                           | Some pc, Some tc =>
-                               let old := get (t_objs t) pc in
-                               let new_tree := tree_of (t_objs t) tc in
-                               (* EditBuilder: a new commit unless nothing changed *)
-                               let t1 :=
-                                 if tree_eqb new_tree (tree_of (t_objs t) pc) then (t, None)
-                                 else
-                                   let '(objs', o) :=
-                                     put (t_objs t)
-                                         (plain (parents_of (t_objs t) pc) new_tree
-                                                (match old with Some c => c_meta c | None => 0 end)
-                                                (subj_of (t_objs t) pc)) in
-                                   (set_objs t objs', Some o) in
-                               let '(t2, _) := delete_patches (fun n => name_eqb n tmpname) (fst t1) in
-                               match snd t1 with
-                               | Some o => update_patch pn o t2
-                               | None => TOk t2
-                               end
-                           | _, _ => TPanic
-                           end)
-                        MOp
+                        (refresh_absorb pn tmpname) MOp
                   end
               | other => other
-              end
-        end
+              end)
+  end
   end.
 
 Definition run_spill (w : world) : world * exitc :=
@@ -1061,13 +1122,6 @@ Definition run_git (w : world) (c : cmd) : world * exitc :=
 
 (* ---------------------------------------------------------------- edit / rebase *)
 
-(* the applied patches above n (empty when n is not applied) *)
-Fixpoint after_name (n : name) (l : list name) : list name :=
-  match l with
-  | [] => []
-  | x :: r => if name_eqb x n then r else after_name n r
-  end.
-
 (* stg edit -m <msg> [<patch>] without an editor: EditBuilder makes a new commit (same
    parents, same tree) unless nothing changed, in which case no transaction runs at all; the
    patches above are popped and pushed back *)
@@ -1350,7 +1404,7 @@ Section Step.
     | CInit => match open_stack PMust w with
                | Some op => (op_world op, X0) | None => err2 w end
     | CNew nm meta msg => run_new w nm meta msg
-    | CRefresh => run_refresh w
+    | CRefresh p => run_refresh w p
     | CPush r n all rv na st mg kp cf => run_push w r n all rv na st mg kp cf
     | CPop r n all kp sp => run_pop w r n all kp sp
     | CGoto l kp mg cf => run_goto w l kp mg cf
